@@ -305,6 +305,7 @@ fn r_pressure_spinodal<E: Residual>(
     Err(EosError::NotConverged("replica pressure_spinodal".to_owned()))
 }
 
+#[derive(Debug)]
 enum Exit {
     Converged,
     Exhausted(Density),
@@ -327,6 +328,9 @@ fn r_density_iteration<E: Residual>(
     let mut converged = false;
     'iteration: for k in 0..maxiter {
         let (mut p, mut dp_drho) = r_p_dpdrho(eos, temperature, moles, rho)?;
+        if std::env::var("VERIF_DEBUG").is_ok() {
+            eprintln!("  replica k={k} rho={:e} p={:e} dp={:e}", rho.to_reduced(), p.to_reduced(), dp_drho.to_reduced());
+        }
         if dp_drho.is_sign_negative() && k == 0 {
             rho = if initial_density <= 0.15 * maxdensity {
                 0.05 * initial_density
@@ -436,6 +440,9 @@ fn exhausted_iteration<E: Residual>(st: &State<E>, p: f64, start: Start) -> Opti
         };
         for s0 in starts {
             let r = catch_unwind(AssertUnwindSafe(|| r_density_iteration(&st.eos, t, pq, &st.moles, s0)));
+            if std::env::var("VERIF_DEBUG").is_ok() {
+                eprintln!("replica from {:e}: {:?} (returned rho {rho:e})", s0.to_reduced(), r.as_ref().map(|r| r.as_ref().map(|e| format!("{e:?}")).map_err(|e| e.to_string())).map_err(|_| "panic"));
+            }
             if let Ok(Ok(Exit::Exhausted(end))) = r {
                 if (end.to_reduced() - rho).abs() <= 1e-9 * rho.abs() {
                     return Some("replica of density_iteration exhausts its 50 iterations and ends at the returned density");
@@ -482,6 +489,26 @@ fn check_pressure<E: Residual>(obs: &mut Obs, key: &str, st: &State<E>, p: f64, 
                 ),
             );
             return false;
+        }
+    }
+    if !((ps - p).abs() <= tol) {
+        // evaluation noise of the model itself: the pressure of the same state re-evaluated at
+        // volumes that differ by a few ulp (the dual-number Newton step of the cross-association
+        // solver cancels catastrophically at extreme association strength: the association
+        // pressure is quantised in steps of up to 1e-5 rho T there). The density iteration cannot
+        // do better than that noise.
+        let vals: Vec<f64> = (-6..=6)
+            .filter_map(|k| {
+                let v = st.volume * (1.0 + k as f64 * 3e-16);
+                State::new_nvt(&st.eos, st.temperature, v, &st.moles).ok().map(|s| s.pressure(TOT).to_reduced())
+            })
+            .collect();
+        let (lo, hi) = vals.iter().fold((f64::MAX, f64::MIN), |(a, b), &v| (a.min(v), b.max(v)));
+        let noise = hi - lo;
+        if vals.len() >= 10 && noise.is_finite() && noise > tol && (ps - p).abs() <= 2.0 * noise + tol {
+            obs.count();
+            obs.class("pressure within the evaluation noise of the model at the returned state (ill-conditioned association term)");
+            return true;
         }
     }
     within(obs, key, "pressure(state) == specified pressure", ps, p, tol)
